@@ -19,7 +19,7 @@ print(json.load(open('$m/meta.json')).get('result',''))")
   if ! (cd $d && patch -p1 -s < /verif/seeded/$m/patch.diff); then echo "$m: PATCH-FAILED"; rc=1; rm -rf $d; continue; fi
   res=""; any=0
   for p in $props; do
-    out=$(/verif/bin/govc check --prop $p --repo $d --no-evidence --no-retry --timeout 8 2>&1)
+    out=$(/verif/bin/govc check --prop $p --repo $d --no-evidence ${SEEDFLAGS:-} 2>&1)
     if echo "$out" | grep -q "^VIOLATION property=$p"; then
       any=1
       res="$res $p:caught[$(echo "$out" | grep 'failed obligation' | head -1 | sed 's/.*failed obligation: //; s/ \[.*//')]"
